@@ -684,7 +684,20 @@ func genCFF(t *rapid.T, n int, cidKeyed bool, o Opts, c *Case, fl *filler) *cff.
 	if !cidKeyed {
 		out.Private = []*type1.PrivateDict{genPrivate(t)}
 		out.FDSelect = func(glyph.ID) int { return 0 }
-		switch rapid.IntRange(0, 2).Draw(t, "encKind") {
+		switch rapid.IntRange(0, 3).Draw(t, "encKind") {
+		case 3:
+			// free encoding: any codes for any glyphs, in any order, glyphs
+			// with several codes and glyphs without one (needs supplemental
+			// codes in the file)
+			enc := make([]glyph.ID, 256)
+			if n > 1 {
+				for i := rapid.IntRange(1, 40).Draw(t, "encFreeN"); i > 0; i-- {
+					enc[rapid.IntRange(0, 255).Draw(t, "encCode")] = glyph.ID(rapid.IntRange(1, n-1).Draw(t, "encGid"))
+				}
+			}
+			out.Encoding = enc
+			c.label("custom-encoding")
+			c.label("free-encoding")
 		case 0: // nil = standard encoding
 		case 1:
 			out.Encoding = cff.StandardEncoding(out.Glyphs)
